@@ -34,6 +34,11 @@ One case = one *fault history* followed by HEAL and a QUIET PERIOD:
                   TAIL x raftMaxTimeout after everything below held for the first time (stability), or when the
                   period is used up.
 
+  exact multiple  over-sized commands whose pickled log entry is EXACTLY 2, 3, 4 x appendEntriesBatchSizeBytes long (the last
+                  piece ends on the batch boundary; 1 x cannot occur, see Hist.exact_payload): kind `exact_multiple_entry`
+                  (replicated at once / to a node that was away / after a compaction), as the quiet-period commands
+                  (`exact_post`, `exact_early`), and in some random histories.  Coverage measures on the wire how many
+                  piecewise transmissions really were exact multiples, by k; floor for each k.
   bandwidth       history parameter `link_rate` = at most that many messages per directed link and step during the quiet
                   period (FIFO, nothing lost, timely ticks; absent = everything is delivered each step).  Kind
                   `slow_snapshot`: a voter / read-only node needs a snapshot of MANY chunks (hardly compressible state,
@@ -409,6 +414,36 @@ class Hist(object):
         for _ in range(n):
             self.ev("submit", i, self.payload(cls))
 
+    def exact_payload(self, prefix, k, idx, term):
+        """a command value whose log entry, pickled the way `__sendAppendEntries` pickles an over-sized entry
+        (`pickle.dumps((command, idx, term))`), is EXACTLY k x appendEntriesBatchSizeBytes long: the last piece ends
+        on the boundary.  (1 x is impossible: the pickled entry is longer than the command, and only commands of at
+        least one batch go the piecewise way.)  What really went over the wire is measured, see `_exact_on_wire`."""
+        so = self.sim.so
+        o = next(iter(self.sim.objs.values()))
+        fid = o._methodToID[o._getFuncName("add")]
+        B = self.B
+
+        def plen(x):
+            return len(so.pickle.dumps((so._bchr(0) + so.pickle.dumps((fid, (x,))), idx, term)))
+        x = prefix
+        for _ in range(24):
+            d = k * B - plen(x)
+            if d == 0:
+                return x
+            if len(x) + d < len(prefix):
+                return None
+            x = prefix + "x" * (len(x) - len(prefix) + d)
+        return None
+
+    def submit_exact(self, i, k):
+        """submit on node i a command that becomes an exact k-batch entry if it is appended next by the present leader"""
+        s = self.sim
+        l = self.leader() or i
+        self.seq += 1
+        x = self.exact_payload("c%d_" % self.seq, k, s.last_index(l) + 1, s.objs[l]._getTerm()) if self.B < BIG else None
+        self.ev("submit", i, x if x is not None else "c%d" % self.seq)
+
     def connect_all(self):
         for (a, b) in self.pairs:
             self.ev("connect", a, b)
@@ -551,7 +586,14 @@ def d_stale_leader(h, var):
         if l2 is not None:
             break
     if l2 is not None:
-        h.submit(l2, "mid", var["new_cmds"])
+        if var.get("pattern") and h.B < BIG:
+            # s = small, B = over-sized (sent in start/process/finish pieces): an over-sized entry of the new leader
+            # sits where the walk back over the old leader's stale tail passes, with more entries behind it
+            for ch in var["pattern"]:
+                h.submit(l2, "big" if ch == "B" else "tiny", 1)
+                h.run(1, DT, rest)
+        else:
+            h.submit(l2, "mid", var["new_cmds"])
         h.run(6, DT, rest)
         if var.get("compact"):
             h.ev("compact", l2)
@@ -764,6 +806,34 @@ def _split_phase(h, A, B, mode, rounds, steps, dt, rng=None):
     rec["leader_with_half"] += len(claimed)
     termsA = set(t for (v, t) in claimed if v in inA)
     rec["same_term_leaders"] += 1 if termsA & set(t for (v, t) in claimed if v not in inA) else 0
+
+
+def d_exact_multiple_entry(h, var):
+    """over-sized commands whose pickled log entry is exactly 2, 3, 4 batches long: replicated at once, replicated
+    to a follower that was away (catch-up), and - through the history parameters exact_post / exact_early - as the
+    commands of the quiet period"""
+    h.connect_all()
+    L = h.elect()
+    if L is None:
+        return
+    F = [x for x in h.A if x != L][var.get("which", 0) % (len(h.A) - 1)]
+    h.notes["lagging"] = F
+    h.run(3)
+    for k in var["ks"]:
+        h.submit_exact(L, k)
+        h.run(3)
+    rest = [x for x in h.A if x != F]
+    h.isolate([F], var["mode"])
+    for k in var["ks_away"]:
+        h.submit_exact(L, k)
+        h.run(3, DT, rest)
+    h.submit(L, "tiny", 1)
+    h.run(3, DT, rest)
+    if var.get("compact"):
+        h.ev("compact", L)
+        h.run(3, DT, rest)
+        h.submit_exact(L, var["ks"][0])
+        h.run(3, DT, rest)
 
 
 def d_slow_snapshot(h, var):
@@ -1155,6 +1225,9 @@ def d_random(h, var):
         if r < w_submit:
             l = h.leader()
             v = l if (l is not None and rng.random() < 0.6) else rng.choice(h.A)
+            if var.get("exact") and h.B < BIG and rng.random() < 0.3:
+                h.submit_exact(v, rng.choice([2, 2, 3, 4]))
+                continue
             h.submit(v, rng.choice(["tiny", "mid", "mid", "big"]), 1 if rng.random() < 0.5 else rng.randrange(2, 7))
             continue
         r -= w_submit
@@ -1202,7 +1275,7 @@ def d_random(h, var):
 GEN = {"partition": d_partition, "midburst": d_midburst, "stale_leader": d_stale_leader,
        "lag_snapshot": d_lag_snapshot, "uneven": d_uneven, "compactions": d_compactions,
        "term_inflation": d_term_inflation, "random": d_random, "old_long_vs_new_short": d_old_long_vs_new_short,
-       "even_split": d_even_split, "slow_snapshot": d_slow_snapshot,
+       "even_split": d_even_split, "slow_snapshot": d_slow_snapshot, "exact_multiple_entry": d_exact_multiple_entry,
        "snapshot_then_leader_down": d_snapshot_then_leader_down, "long_walkback": d_long_walkback, "observer_restart": d_observer_restart, "voter_restart_journal": d_voter_restart_journal,
        "voter_restart_leader_stays": d_voter_restart_leader_stays}
 
@@ -1337,6 +1410,7 @@ def scenario(repo, p, workdir=None):
     stable_steps = int(STABLE * unit / DT)
     early_cid = early_node = early_step = None
     post_cid = post_node = post_step = None
+    EARLY, POST = "early", "post"
     t_leader = t_sync = t_ack = None
     first_ok = stable_since = stable_L = None
     step = changes = 0
@@ -1360,14 +1434,18 @@ def scenario(repo, p, workdir=None):
         if L is not None and early_cid is None:
             # first moment at which one leader is reported and named by everybody (may still be deposed)
             early_node = _post_target(h, p, L, "early")
-            early_cid = s.submit(early_node, "early")
+            if p.get("exact_early") and h.B < BIG:
+                EARLY = h.exact_payload("early_", p["exact_early"], s.last_index(L) + 1, s.objs[L]._getTerm()) or EARLY
+            early_cid = s.submit(early_node, EARLY)
             early_step = step
         if post_cid is None and ((stable_since is not None and step - stable_since >= stable_steps)
                                  or step >= max_steps // 2):
             # the same leader for more than one full election timeout: nobody is about to start an election
             t_leader = (stable_since if stable_since is not None else step) * DT
             post_node = _post_target(h, p, L, "post")
-            post_cid = s.submit(post_node, "post")
+            if p.get("exact_post") and h.B < BIG and L is not None:
+                POST = h.exact_payload("post_", p["exact_post"], s.last_index(L) + 1, s.objs[L]._getTerm()) or POST
+            post_cid = s.submit(post_node, POST)
             post_step = step
             continue
         if L is None or post_cid is None:
@@ -1410,8 +1488,8 @@ def scenario(repo, p, workdir=None):
     acked = [(res, err) for (node, cid, res, err) in s.callbacks if cid == post_cid]
     if post_cid is not None and not (acked and acked[0][1] == 0):
         detail = ("error-%s" % FAIL_NAMES.get(acked[0][1], acked[0][1])) if acked else \
-            ("skipped-by-snapshot-on-submitter" if _skipped(h, post_node, "post") else
-             ("submitter-stays-behind" if "post" not in s.objs[post_node].log and L is not None and "post" in s.objs[L].log
+            ("skipped-by-snapshot-on-submitter" if _skipped(h, post_node, POST) else
+             ("submitter-stays-behind" if POST not in s.objs[post_node].log and L is not None and POST in s.objs[L].log
               else "no-callback"))
         viol.append({"signature": "convergence:post-heal-command-not-acknowledged:" + detail,
                      "what": "command submitted on %s %.2f s after the heal (same single leader for %.2f s before): %s after %s"
@@ -1422,12 +1500,12 @@ def scenario(repo, p, workdir=None):
     # it was applied, its submitter must have been told something, and SUCCESS unless leadership changed under it
     e_acked = [(res, err) for (node, cid, res, err) in s.callbacks if cid == early_cid]
     refL = L if L is not None else max(h.CV, key=lambda v: (s.objs[v].raftLastApplied, v))
-    early_applied = early_cid is not None and "early" in s.objs[refL].log
+    early_applied = early_cid is not None and EARLY in s.objs[refL].log
     if early_applied and not e_acked:
-        skipped = _skipped(h, early_node, "early")
+        skipped = _skipped(h, early_node, EARLY)
         viol.append({"signature": "convergence:post-heal-command-not-acknowledged:"
                                   + ("skipped-by-snapshot-on-submitter" if skipped else
-                                     ("submitter-stays-behind" if "early" not in s.objs[early_node].log
+                                     ("submitter-stays-behind" if EARLY not in s.objs[early_node].log
                                       else "applied-without-callback")),
                      "what": "command submitted on %s %.2f s after the heal, as soon as one leader was named by every node, is in the "
                              "common state of all replicas but its submitter never got a callback (%s)%s"
@@ -1487,6 +1565,17 @@ def scenario(repo, p, workdir=None):
             elif m.get("reset"):
                 runs[a] = runs.get(a, 0) + 1
                 best = max(best, runs[a])
+    # piecewise (over-sized) entries sent to a node after the heal before that node accepted anything (= while the
+    # leader was still looking for the point where the logs agree); read off the wire, COVERAGE only
+    accepted, ow = set(), {}
+    for (a, b, m) in s.sent[n_sent0:]:
+        if m.get("type") == "next_node_idx" and m.get("success"):
+            accepted.add(a)
+        elif m.get("type") == "append_entries" and m.get("transmission") == "start" and b not in accepted:
+            ow[b] = ow.get(b, 0) + 1
+    cov["oversized_during_walkback"] = max(list(ow.values()) + [0])
+    cov["oversized_exact_multiple"] = _exact_on_wire(s, h.B)
+    cov["exact_quiet"] = sum(1 for x in (EARLY, POST) if x not in ("early", "post"))
     nones, votes_in_pending = {}, 0
     if p.get("dump_checker"):
         for (a, b, m) in s.sent[n_sent0:]:
@@ -1551,6 +1640,34 @@ def scenario(repo, p, workdir=None):
     h.close()
     return {"viol": viol, "events": h.events, "cov": cov,
             "resolved": {"early": early_node, "post": post_node, "down": list(h.down)}}
+
+
+def _exact_on_wire(s, B):
+    """over-sized entries sent in pieces (`transmission` start/process/finish) whose total length was an exact multiple
+    of the batch size, by multiple k - measured on the messages really sent (COVERAGE)"""
+    out, cur = {}, {}
+    if B >= BIG:
+        return out
+
+    def close(c):
+        n = cur.pop(c, None)
+        if n and n % B == 0:
+            out[str(n // B)] = out.get(str(n // B), 0) + 1
+    for (a, b, m) in s.sent:
+        t = m.get("transmission") if m.get("type") == "append_entries" else None
+        c = (a, b)
+        if t == "start":
+            close(c)
+            cur[c] = len(m["data"])
+        elif t in ("process", "finish") and c in cur:
+            cur[c] += len(m["data"])
+            if t == "finish":
+                close(c)
+        elif m.get("type") == "append_entries" and c in cur:
+            close(c)
+    for c in list(cur):
+        close(c)
+    return out
 
 
 def _skipped(h, node, x):
@@ -1640,6 +1757,9 @@ def draw_conf(rng, kind=None):
         c["commandsWaitLeader"] = False
     if rng.random() < 0.3 or kind == "snapshot_then_leader_down":
         c["dynamicMembershipChange"] = True          # the option alone; no membership command is ever issued
+    if kind == "exact_multiple_entry":
+        c.update({"appendEntriesBatchSizeBytes": rng.choice([128, 256]), "logCompactionMinEntries": 100000,
+                  "logCompactionMinTime": 100000})
     if kind == "slow_snapshot":
         c.update({"logCompactionBatchSize": rng.choice([32, 64, 128]), "logCompactionMinEntries": 100000,
                   "logCompactionMinTime": 100000, "appendEntriesBatchSizeBytes": rng.choice([400, BIG]),
@@ -1732,6 +1852,25 @@ def directed_params(rng):
                         "seed": rng.randrange(10 ** 6), "post": ["leader", "follower"][k % 2], "early": ["lagging", "leader"][k % 2],
                         "post_k": rng.randrange(4), "heal_all": True, "dumpfile": False,
                         "down": "notes", "down_mode": ["noticed", "silent"][k % 2], "down_ticks": k % 3 != 1, "down_fresh": True})
+    # the walk back over a stale tail passes an over-sized entry of the new leader that has successors
+    for k, pat in enumerate(("sBs", "Bs", "ssBs", "sBBs", "BsBs", "sBsss")):
+        conf = draw_conf(rng, "stale_leader")
+        conf.update({"appendEntriesBatchSizeBytes": [100, 200, 400][k % 3], "logCompactionMinEntries": 100000,
+                     "logCompactionMinTime": 100000})
+        out.append({"kind": "stale_leader", "nv": [3, 3, 5][k % 3], "no": k % 2, "conf": conf,
+                    "var": {"mode": ["silent", "outside"][k % 2], "stale_cmds": 1 + k % 3, "new_cmds": 0, "compact": False,
+                            "obs_with_leader": False, "pattern": pat},
+                    "seed": rng.randrange(10 ** 6), "post": ["leader", "follower"][k % 2], "early": "lagging",
+                    "post_k": rng.randrange(4), "heal_all": k % 2 == 0, "dumpfile": False, "down": "none"})
+    # over-sized entries whose pickled length is an exact multiple of the batch size
+    for k in range(6):
+        conf = draw_conf(rng, "exact_multiple_entry")
+        out.append({"kind": "exact_multiple_entry", "nv": 3, "no": k % 2, "conf": conf,
+                    "var": {"which": k, "mode": modes[k % 4], "ks": [[2, 3, 4], [4, 2], [3]][k % 3], "ks_away": [[2, 4], [3], [4, 3, 2]][k % 3],
+                            "compact": k % 4 == 3},
+                    "seed": rng.randrange(10 ** 6), "post": ["leader", "follower", "observer"][k % 3], "early": ["lagging", "follower"][k % 2],
+                    "post_k": rng.randrange(4), "heal_all": k % 2 == 0, "dumpfile": False, "down": "none",
+                    "exact_post": [2, 3, 4][k % 3], "exact_early": [4, 2, 3][k % 3]})
     # a snapshot that takes several election timeouts on a link of bounded bandwidth
     k = 0
     for nv in (3, 5):
@@ -1828,7 +1967,8 @@ def random_params(rng, n):
     out = []
     kinds = ["random", "random", "random", "lag_snapshot", "stale_leader", "partition", "midburst", "uneven",
              "compactions", "term_inflation", "old_long_vs_new_short", "observer_restart", "voter_restart_journal",
-             "voter_restart_leader_stays", "long_walkback", "even_split", "slow_snapshot", "snapshot_then_leader_down"]
+             "voter_restart_leader_stays", "long_walkback", "even_split", "slow_snapshot", "snapshot_then_leader_down",
+             "exact_multiple_entry"]
     modes = ["noticed", "silent", "inside", "outside"]
     for _ in range(n):
         kind = rng.choice(kinds)
@@ -1850,6 +1990,11 @@ def random_params(rng, n):
             var = {"n": rng.choice([30, 60, 100, 160])}
             if nv == 4 and rng.random() < 0.45:
                 var["even_split"] = True            # a 2|2 split with submissions on both sides somewhere in the history
+            if rng.random() < 0.2:
+                var["exact"] = True                 # some over-sized commands end exactly on a batch boundary
+        elif kind == "exact_multiple_entry":
+            var = {"which": rng.randrange(4), "mode": rng.choice(modes), "ks": [rng.choice([2, 3, 4]) for _ in range(rng.randrange(1, 4))],
+                   "ks_away": [rng.choice([2, 3, 4]) for _ in range(rng.randrange(1, 4))], "compact": rng.random() < 0.3}
         elif kind == "slow_snapshot":
             var = {"who": rng.choice(["voter", "voter", "observer"]), "which": rng.randrange(4), "mode": rng.choice(modes),
                    "m": rng.choice([24, 40, 56, 80]), "rnd_len": rng.choice([64, 96, 128]), "others_compact": rng.random() < 0.3,
@@ -1873,6 +2018,9 @@ def random_params(rng, n):
         elif kind == "stale_leader":
             var = {"mode": rng.choice(["silent", "outside"]), "stale_cmds": rng.randrange(1, 8),
                    "new_cmds": rng.randrange(1, 10), "compact": rng.random() < 0.5, "obs_with_leader": rng.random() < 0.5}
+            if rng.random() < 0.35:
+                var["pattern"] = "".join(rng.choice("ssB") for _ in range(rng.randrange(2, 7)))
+                var["stale_cmds"], var["compact"] = rng.randrange(1, 5), False
         elif kind == "lag_snapshot":
             var = {"who": rng.choice(["follower", "observer", "leader"]), "mode": rng.choice(modes),
                    "m": rng.randrange(5, 16), "after": rng.randrange(0, 5), "own_compaction": rng.random() < 0.4,
@@ -1944,7 +2092,8 @@ def random_params(rng, n):
             # still in flight once per heartbeat; on a link that carries ONE message per step the queue then never
             # drains (congestion, minutes of delay) - that is no longer "messages exchanged in time"
             link_rate = rng.randrange(2, 9)
-        out.append({"link_rate": link_rate,"kind": kind, "nv": nv, "no": no, "conf": conf, "var": var,
+        exact_q = rng.choice([2, 3, 4]) if rng.random() < 0.08 else None
+        out.append({"link_rate": link_rate, "exact_post": exact_q, "exact_early": exact_q and rng.choice([2, 3, 4]), "kind": kind, "nv": nv, "no": no, "conf": conf, "var": var,
                     "seed": rng.randrange(10 ** 6), "post": rng.choice(["leader", "follower", "follower", "observer"]),
                     "early": rng.choice(["lagging", "lagging", "follower", "observer", "leader"]),
                     "post_k": rng.randrange(4), "heal_all": heal_all,
@@ -2104,7 +2253,7 @@ def _run(ctx, workdir):
            "violating_histories": {}, "early_command_outcome": {},
            "healed_with_minority_down": {"histories": 0, "by_kind": {}}, "connected_log_shapes_at_heal": {},
            "old_long_vs_new_short": {}, "restarts": {}, "walkback_longer_than_fallback": {}, "max_walkback_rounds": 0,
-           "even_split": {}, "bounded_bandwidth": {}, "dynamic_membership_option": {},
+           "even_split": {}, "bounded_bandwidth": {}, "dynamic_membership_option": {}, "oversized_exact_multiple": {},
            "pending_dump": {}}
     distinct = set()
     viols, sigs = [], set()
@@ -2140,6 +2289,15 @@ def _run(ctx, workdir):
                     _inc(cov["old_long_vs_new_short"], k_)
                     if c["down_voters"]:
                         _inc(cov["old_long_vs_new_short"], k_ + "_bare_majority_%d" % c["nv"])
+        if c.get("oversized_during_walkback") and c["reset_replies_after_heal"]:
+            _inc(cov["oversized_exact_multiple"], "histories_with_oversized_entry_during_walkback")
+            if c["kind"] == "stale_leader":
+                _inc(cov["oversized_exact_multiple"], "stale_leader_histories_with_oversized_entry_during_walkback")
+        for k_, n_ in (c.get("oversized_exact_multiple") or {}).items():
+            _inc(cov["oversized_exact_multiple"], k_, n_)
+            _inc(cov["oversized_exact_multiple"], "histories_k%s" % k_)
+        if c.get("exact_quiet"):
+            _inc(cov["oversized_exact_multiple"], "quiet_period_commands_exact", c["exact_quiet"])
         if c.get("link_rate"):
             bw = cov["bounded_bandwidth"]
             _inc(bw, "histories")
@@ -2287,6 +2445,15 @@ def _run(ctx, workdir):
                        ("leader_stays_dump_only_match_beyond_log_end", 5, 80)):
         if rs.get(k_, 0) < ctx.scale(q_, t_):
             floors.append("restarts: %s = %d" % (k_, rs.get(k_, 0)))
+    om = cov["oversized_exact_multiple"]
+    for k_ in ("2", "3", "4"):
+        if om.get(k_, 0) < 1:
+            floors.append("no over-sized entry of exactly %s batches was sent" % k_)
+    if om.get("stale_leader_histories_with_oversized_entry_during_walkback", 0) < ctx.scale(4, 60):
+        floors.append("stale_leader histories with an over-sized entry met during the walk back: %d"
+                      % om.get("stale_leader_histories_with_oversized_entry_during_walkback", 0))
+    if om.get("quiet_period_commands_exact", 0) < 2:
+        floors.append("quiet-period commands of exact batch multiples: %d" % om.get("quiet_period_commands_exact", 0))
     bw = cov["bounded_bandwidth"]
     if bw.get("snapshot_transfer_longer_than_raftMaxTimeout_slow_snapshot", 0) < ctx.scale(6, 100):
         floors.append("slow_snapshot histories whose transfer outlasted raftMaxTimeout: %d"
